@@ -217,48 +217,45 @@ func (self *localBatchedBuffer) commit() {
 		return
 	}
 
-	var open *localBatch
-	for _, v := range self.buff {
-		dt, key, _, err := expDecodeTimeKey(v.timeKey)
-		if err != nil || dataType2CommonType(dt) == common.NONE {
-			// currently the bitmap/json type is not supported
-			if err != nil {
-				dbLog.Errorf("decode time-key failed, bad data encounter, err:%s, %v", err, dt)
-			}
+	// one data type after the other, so that at most one write batch is open at a time: an engine
+	// whose write batch holds the writer lock from its first operation until it is committed
+	// (mem engine) would otherwise block itself on the batch of the second type forever
+	for t := common.KV; t < common.ALL; t++ {
+		batched := self.batched[t]
+		if batched == nil {
 			continue
 		}
+		for _, v := range self.buff {
+			dt, key, _, err := expDecodeTimeKey(v.timeKey)
+			if err != nil || dataType2CommonType(dt) == common.NONE {
+				// currently the bitmap/json type is not supported
+				if err != nil && t == common.KV {
+					dbLog.Errorf("decode time-key failed, bad data encounter, err:%s, %v", err, dt)
+				}
+				continue
+			}
+			if dataType2CommonType(dt) != t {
+				continue
+			}
 
-		batched := self.batched[dataType2CommonType(dt)]
-		// only one of the per-type write batches may hold pending operations at a time: an engine
-		// whose write batch is a write transaction (mem) allows a single open batch, a second one
-		// opened by this goroutine would wait for the first forever
-		if open != nil && open != batched {
-			if err := open.commit(); err != nil {
-				dbLog.Errorf("batch delete expired data of type:%s failed, err:%s", open.dt.String(), err.Error())
+			err = batched.propose(v.timeKey, v.metaKey, key)
+			if err == ErrLocalBatchFullToCommit {
+				err = batched.commit()
+
+				//propose the expired-data again as the
+				//last propose has failed as the buffer is full
+				batched.propose(v.timeKey, v.metaKey, key)
+			}
+			if err != nil {
+				dbLog.Errorf("batch delete expired data of type:%s failed, err:%s", TypeName[dt], err.Error())
 			}
 		}
-		open = batched
-
-		err = batched.propose(v.timeKey, v.metaKey, key)
-		if err == ErrLocalBatchFullToCommit {
-			err = batched.commit()
-
-			//propose the expired-data again as the
-			//last propose has failed as the buffer is full
-			batched.propose(v.timeKey, v.metaKey, key)
-		}
-		if err != nil {
-			dbLog.Errorf("batch delete expired data of type:%s failed, err:%s", TypeName[dt], err.Error())
-		}
-	}
-
-	//clean the buffer
-	self.buff = self.buff[:0]
-	for t := common.KV; t < common.ALL; t++ {
-		if err := self.batched[t].commit(); err != nil {
+		if err := batched.commit(); err != nil {
 			dbLog.Errorf("batch delete expired data of type:%s failed, err:%s", common.DataType(t).String(), err.Error())
 		}
 	}
+	//clean the buffer
+	self.buff = self.buff[:0]
 }
 
 func (exp *localExpiration) Stop() {
